@@ -450,6 +450,12 @@ impl<'a> ReadAdapter<'a> {
             //
             // NOTE: We have to re-borrow the reader buffer here, since we can't get a mutable
             // reference to `self.buf` while holding an immutable reference to the reader buffer.
+            // `read_exact` resets the length of `self.buf` once everything in it has been
+            // consumed, but leaves `self.pos` pointing past the end; start over at the beginning
+            // in that case, otherwise the bytes buffered below would be skipped.
+            if self.pos > self.buf.len() {
+                self.pos = 0;
+            }
             let reader = self.reader.get_mut();
             let buf = reader.buffer();
             let consumed = buf.len();
